@@ -30,7 +30,7 @@ func init() {
 // Batch), equal values with different descriptions, several messages, map-built lists
 func detGen(r *Rng, i int, cfg int, tier string) []string {
 	g := &exprGen{r: r}
-	shape := r.Intn(9)
+	shape := r.Intn(10)
 	note("shape=" + strconv.Itoa(shape))
 	switch shape {
 	case 0, 1: // Batch(Prefix(p1, e), Prefix(p2, e), ...): equal displays, different values
@@ -67,6 +67,13 @@ func detGen(r *Rng, i int, cfg int, tier string) []string {
 		g.emit("ab", "ab", "", "red", "")
 		g.emit("a/b", "disp", "", "", r.Pick([]string{"", "t2"}))
 		g.emit("a/d", "a/d", "other", "blue", "t3")
+	case 7: // Diff: merged through a map; equal displays with different values (Prefix / Suffix change the value only)
+		g.emit("DF")
+		for k := 0; k < 2; k++ {
+			g.emit(r.Pick([]string{"P", "X"}), r.Pick([]string{"a/", "b/", "x", "", "y"}))
+			g.emit("D")
+			g.emit(strList([]string{"x", "dx" + strconv.Itoa(k), "y", "", "z", "dz"})...)
+		}
 	case 5: // segments that differ only in case: under CARAPACE_MATCH=1 one typed prefix reaches several of them
 		g.emit("MP", "1", "/", "V")
 		g.emit(strList([]string{"A/x", "a/x", "a/y", "A/y", "a/X", "b/x"})...)
